@@ -145,6 +145,26 @@ func formatterProp(t *rapid.T, s *stats.Section) {
 			}
 			n = ff
 		}
+		// a formatter node has a life before this event: earlier events (also ones it could not encode) and Reopen calls
+		warm := rapid.SampledFrom([]string{"", "", "event", "event+reopen", "reopen", "event+reopen+event", "failing-event+reopen"}).Draw(t, "earlierLife")
+		if warm != "" {
+			save := predArg
+			mk := func(p interface{}) *eventlogger.Event {
+				return &eventlogger.Event{Type: "warm-up", CreatedAt: created, Formatted: map[string][]byte{}, Payload: p}
+			}
+			for _, step := range strings.Split(warm, "+") {
+				switch step {
+				case "event":
+					_, _ = n.Process(context.Background(), mk(map[string]interface{}{"warm": strings.Repeat("w", 100)}))
+				case "failing-event":
+					_, _ = n.Process(context.Background(), mk(make(chan int)))
+				case "reopen":
+					_ = n.Reopen()
+				}
+			}
+			predArg = save
+			desc += " earlierLife=" + warm
+		}
 		var out *eventlogger.Event
 		var err error
 		done := make(chan struct{})
